@@ -125,7 +125,27 @@ func (c *Ctx) RunC16(tier string) {
 			}
 		}
 	}
-	rep.Bound = fmt.Sprintf("per dialect (ICWS88, ICWS94, and NOP94 for half of the '94 warriors): every legal instruction form x every field pair for M in %v; boundary fields {0,1,M/2,M/2+1,M-1} for M in {80,8000,8192}; all 2- and 3-instruction warriors over a 12-form alphabet with every entry point", small)
+	// long warriors (two- and three-digit line counts) and cores whose fields need six and seven digits
+	for _, legacy := range []bool{false, true} {
+		if !c.mine() {
+			continue
+		}
+		for _, M := range []uint64{8000, 100003, 1000003} {
+			al := alphabet12(legacy, M)
+			for _, n := range []int{12, 120} {
+				code := make([]g.Instruction, n)
+				for i := range code {
+					code[i] = al[(i*7+3)%len(al)]
+					code[i].A = g.Address((uint64(i)*7919 + M/2) % M)
+					code[i].B = g.Address((M - 1 - uint64(i)*31) % M)
+				}
+				for _, st := range []int{0, 9, 10, n - 1} {
+					c.check16(code, st, M, legacy)
+				}
+			}
+		}
+	}
+	rep.Bound = fmt.Sprintf("per dialect (ICWS88, ICWS94, and NOP94 for half of the '94 warriors): every legal instruction form x every field pair for M in %v; boundary fields {0,1,M/2,M/2+1,M-1} for M in {80,8000,8192}; all 2- and 3-instruction warriors over a 12-form alphabet with every entry point; warriors of 12 and 120 instructions under M in {8000, 100003, 1000003}", small)
 	sim, _ := g.NewSimulator(cfgOf(8000, false))
 	w, _ := sim.AddWarrior(&g.WarriorData{Code: alphabet12(false, 8000)[1:4], Start: 1})
 	rep.Sample(w.LoadCode())
